@@ -332,6 +332,24 @@ def check(ctx):
             ctx.ob("R17-c", wrap, "the threaded wrap_bio call uses the same BIO order", ok2, node=stmt_of(n), detail="" if ok2 else f"`{norm(stmt_of(n))}`", by=("bio_in, bio_out",))
 
     # ---- R17-d the convenience wrappers hand their configuration to wrap() unchanged ---------------------------------------------------
+    # who may touch the settings of an SSL context: only wrap(), on the context it created itself, and only to *clear* the "ignore
+    # unexpected EOF" option.  A context handed in by the user is shared property (other listeners and streams are built on it): setting
+    # the option there turns truncation into a clean end of stream for every standard-compatible stream created from it later.
+    n_opt = 0
+    for rel_, tree_ in ctx.repo.non_trio_modules().items():
+        if not rel_.endswith(TLS):
+            continue
+        for x in ast.walk(tree_):
+            tgt = x.target if isinstance(x, (ast.AugAssign, ast.AnnAssign)) else (x.targets[0] if isinstance(x, ast.Assign) and len(x.targets) == 1 else None)
+            if isinstance(tgt, ast.Attribute) and tgt.attr in ("options", "verify_mode", "check_hostname", "minimum_version", "maximum_version"):
+                n_opt += 1
+                fo = ctx.repo.func_of(x)
+                ok = fo is wrap and any(x is s_ for s_, _ in clr)
+                ctx.ob("R17-c", fo if fo is not None else wrap, "the only write to an SSL context's settings is wrap() clearing OP_IGNORE_UNEXPECTED_EOF on its own default context",
+                       ok, node=x, by=(norm(x),),
+                       detail="" if ok else f"`{norm(x)}` in {fo.qual if fo else '<module>'} changes an SSL context (possibly the caller's, shared with other streams): "
+                                            "truncation handling of unrelated streams changes with it")
+    ctx.floor("R17-c", "writes to SSL context settings in streams/tls.py", n_opt, 1)
     hw = ctx.fn("TLSListener.serve.handler_wrapper", TLS)
     cn = ctx.fn("TLSConnectable.connect", TLS)
     for f, need in ((hw, {"ssl_context": "self.ssl_context", "standard_compatible": "self.standard_compatible"}),
